@@ -40,7 +40,9 @@ TargetContainer map_optional(Source &&_source, Function const &_function)
         fcppt::optional::is_object<decltype(_function(element))>::value,
         "map_optional requires a function that returns an optional");
 
-    fcppt::optional::maybe_void(_function(element), [&result](auto &&_inner) {
+    // Keep the value category of the element: a move range yields rvalues.
+    fcppt::optional::maybe_void(
+        _function(std::forward<decltype(element)>(element)), [&result](auto &&_inner) {
       result.insert(
           result.end(), // NOLINT(fuchsia-default-arguments-calls)
           std::forward<decltype(_inner)>(_inner));
